@@ -21,6 +21,10 @@ var zzCfgsQuick = []zzCfg{
 	{2, 2, 1, 7},
 	{512, 64, 0, 1 << 32},
 	{3, 64, 1, 1},
+	// large caches (no eviction): used by the threaded units, where the native replay must not depend on
+	// Go's random map iteration order (which decides the order of flushed headers and so the LRU contents)
+	{512, 1, 0, 1},
+	{512, 64, 1, 1},
 }
 
 func zzPickCfg() zzCfg {
@@ -30,7 +34,7 @@ func zzPickCfg() zzCfg {
 		bases := []uint64{1, 7, 1 << 32}
 		return zzCfg{caches[zz.Choice("cfg.cache", 3)], batches[zz.Choice("cfg.batch", 3)], zz.Choice("cfg.flavour", 2), bases[zz.Choice("cfg.base", 3)]}
 	}
-	return zzCfgsQuick[zz.Choice("cfg", len(zzCfgsQuick))]
+	return zzCfgsQuick[zz.Choice("cfg", 4)]
 }
 
 func zzOpen(d *zzMemDS, c zzCfg) *Store[*zh.Hdr] {
